@@ -210,6 +210,39 @@ def coq_bools(name, imports, exprs, defs='', shard=300, timeout=900, keep=False)
     return sorted(bad)
 
 
+def coq_codes(name, imports, exprs, defs='', shard=300, timeout=900):
+    """Evaluate closed Coq expressions of type N (0 = agree, 1 = disagree, 2 = model declines, ...).
+    Returns {index: code} for the non-zero ones."""
+    if not exprs:
+        return {}
+    os.makedirs(CASES, exist_ok=True)
+    jobs = []
+    for k in range(0, len(exprs), shard):
+        _case_counter[0] += 1
+        fn = os.path.join(CASES, 'k_%s_%d_%d.v' % (re.sub(r'\W', '_', name), os.getpid(), _case_counter[0]))
+        body = ['From PV Require Import %s.' % imports, 'Local Open Scope N_scope.', defs,
+                'Definition cs : list N := [']
+        body.append(';\n'.join('(%s)' % e for e in exprs[k:k + shard]))
+        body.append('].\nEval vm_compute in (nonzero cs).\n')
+        with open(fn, 'w') as f:
+            f.write('\n'.join(body))
+        jobs.append((k, fn))
+    res = {}
+    with ThreadPoolExecutor(max_workers=NPROC) as ex:
+        results = list(ex.map(lambda j: _run_case_file(j[1], timeout), jobs))
+    for (k, fn), (rc, out) in zip(jobs, results):
+        if rc != 0:
+            raise HarnessError('coqc failed on %s:\n%s' % (fn, out[-3000:]))
+        m = re.search(r'=\s*\[(.*?)\]\s*:\s*list \(nat \* N\)', out, re.S)
+        if not m:
+            raise HarnessError('cannot parse coqc output for %s:\n%s' % (fn, out[-2000:]))
+        for a, b in re.findall(r'\((\d+)(?:%nat)?\s*,\s*(\d+)(?:%N)?\)', m.group(1)):
+            res[k + int(a)] = int(b)
+        try: os.remove(fn)
+        except OSError: pass
+    return res
+
+
 def coq_show(imports, expr, defs='', timeout=300):
     """vm_compute one expression and return Coq's printed value (for replays and debugging)."""
     os.makedirs(CASES, exist_ok=True)
